@@ -106,8 +106,10 @@ Token* ParserForXMLSchema::processParen() {
 
 Token* ParserForXMLSchema::processBackReference() {
 
-    // XML Schema doesn't support back references
-    ThrowXMLwithMemMgr(RuntimeException, XMLExcepts::Regex_NotSupported, getMemoryManager());
+    // XML Schema doesn't support back references: a backslash followed by
+    // a digit is not one of its escapes
+    XMLCh chString[] = {chBackSlash, (XMLCh)getCharData(), chNull};
+    ThrowXMLwithMemMgr1(ParseException, XMLExcepts::Parser_Process2, chString, getMemoryManager());
     return 0; // for compilers that complain about no return value
 }
 
